@@ -353,6 +353,8 @@ class MdibReplayer:
         self.handed = {}
         self.after_step = after_step   # callback(rec) -> extra observation dict, called after every action
         self.trace = []
+        self.kept = None
+        self.kept_states = set()
 
     def conc(self, a):
         return None if a in ('ext', 'none') else MAP_D[a]
@@ -440,6 +442,32 @@ class MdibReplayer:
         apply_tok(ent.state, rec['t'])
         self.mgr.write_entity(ent)
         self.handed[('E', rec['h'])] = ent
+
+    # ---- an entity object the application obtained between two transactions and keeps
+    def _do_KeepEntity(self, rec):
+        self.kept = self.mdib.entities.by_handle(self.conc(rec['h']))
+        if self.kept is None:
+            raise MachineryError(f'KeepEntity: no entity for {rec["h"]}')
+        self.kept_states = set(getattr(self.kept, 'states', {}) or {})
+
+    def _do_WriteKeptEntity(self, rec):
+        ent = self.kept
+        if self.mgr.__class__.__name__ == 'DescriptorTransaction':
+            apply_tok(ent.descriptor, rec['t'])
+        apply_tok(ent.state, rec['t'])
+        self.mgr.write_entity(ent)
+        self.handed[('E', rec['h'])] = ent
+
+    def _do_WriteEntityCtx(self, rec):
+        """Descriptor transaction: entity of a context descriptor, optionally with a new and / or a dropped state."""
+        ent = self.mdib.entities.by_handle(self.conc(rec['d']))
+        apply_tok(ent.descriptor, rec['t'])
+        if rec['c'] != 'none':
+            ent.new_state(self.proj.map_c[rec['c']])
+        if rec['drop'] != 'none':
+            ent.states.pop(self.proj.map_c[rec['drop']])
+        self.mgr.write_entity(ent)
+        self.handed[('E', rec['d'])] = ent
 
     def _do_GetDescriptor(self, rec):
         self.handed[('D', rec['h'])] = self.mgr.get_descriptor(self.conc(rec['h']))
